@@ -150,7 +150,7 @@ CLAIMS = {
               "chained previous stop + 1 by both chain builders; repetitions are exact translates by last.stop - first.start + 1; every "
               "experiment getter slices the matching category; the estimate divides by the same cycle length and asserts exactness."),
         note=("Assumption: numpy broadcasting of scalar + asarray(range). A vectorised create_sliced_arrays is decided on all shapes up to 4 x 4 only "
-              "(bounded; numpy operations outside the transcribed set -- repeat, tile, reshape, arange, newaxis, broadcasting, stack -- leave it undecided, exit 2). GeneralCalibrationIndexKernel is outside the anchors. Trusted: range/list semantics."),
+              "(bounded; numpy operations outside the transcribed set -- repeat, tile, reshape, arange, newaxis, broadcasting, stack -- leave it undecided, exit 2). GeneralCalibrationIndexKernel (outside the mechanism list, unused by the experiment kernel) is decided by X9 for its four flag settings, with repetitions symbolic. Trusted: range/list semantics."),
         technique="static analysis: piecewise-affine normal forms over symbolic regions (no solver: coefficient-wise sign decisions); abstract interpretation of array index maps with symbolic elements",
     ),
     "C14": dict(
@@ -444,6 +444,24 @@ _ADDED8 = {
     "C19": " I2 also decides that no class test on the qubits of an edge is narrower than the IQubitID interface; I4 separates re-assembly from element-keyed tables (violation) from unread shapes.",
 }
 for _k, _v in _ADDED8.items():
+    CLAIMS[_k]["text"] = CLAIMS[_k]["text"] + _v
+_ADDED9 = {
+    "C02": " (L16) unrolling appends the nodes of each copy, nested blocks with their counts included (shared C01.R7); (L17) flatten reads the complete listing before the old graph is replaced (shared C11.F1); L2 reads the identifier counter in every spelling of 'plus one'.",
+    "C03": " (H11) a listing hands the block's relation to a head before that head is decomposed (shared C01.R7).",
+    "C04": " (D9) the heads of a block carry the block's own relation, type included, into the listing (shared C01.R7).",
+    "C06": " (U9) copy() of every operation class builds that class with the same fields (shared C05.K1/K2).",
+    "C07": " (A15) library builders schedule every read-out of a qubit strictly after the previous one (shared C10.t2).",
+    "C08": " (S9) a sub-circuit handed to add() arrives as a copy of itself, count and relation included (shared C05.K5); S1 reports a translation table that writes a key twice.",
+    "C09": " (P15) the shipped gate-sequence tables give every ancilla each of its data neighbours in a step of its own (shared C17 tables); (P16) nothing is added to a sub-circuit after it was handed over (handing over copies).",
+    "C10": " (T14) an idle Wait occupies every channel of its qubit (the class default and every library call site).",
+    "C11": " (F11) = C10.T14: flattening keeps a block's schedule only if its waits block all channels.",
+    "C12": " (X9) GeneralCalibrationIndexKernel by cases (heralded, f-state): cycle length (1+h)(2+f), stop, and every category a strided slice on its own offset below the cycle length.",
+    "C14": " N4 also decides, by def-use over the block loop, that the idle time of a block depends on no value carried over from earlier blocks.",
+    "C16": " (Q14) Surface17Layer's frequency-level table equals, as a map, the Surface-17 assignment the acceptance rules are stated for.",
+    "C18": " (W10) every row of the draw-factory tables pairs an operation kind with a factory written for a kind on the same number of qubits.",
+    "C19": " I1 also fixes the default channel of an identifier built from a qubit index alone (the whole qubit).",
+}
+for _k, _v in _ADDED9.items():
     CLAIMS[_k]["text"] = CLAIMS[_k]["text"] + _v
 for _k in ("C01", "C02", "C04", "C05", "C06", "C07", "C08", "C09", "C10", "C11", "C13", "C15", "C18"):
     CLAIMS[_k]["text"] = CLAIMS[_k]["text"] + _DEPTH
